@@ -809,6 +809,27 @@ class CursorAnalysis(object):
                 else:
                     res.append(s)
             return res
+        # a file-local predicate on a character of the string:  if (!EndsField(*p)) -- what its outcome implies about that
+        # character is read off the facts engine's helper summary (the outcome that excludes the terminator)
+        if y is not None and y.get('kind') == 'CallExpr' and callee(y) and callee(y)[0] == 'fn' and callee(y)[1].get('_qn') and \
+                callee(y)[1].get('name') not in CTYPE and len(call_args(y)) == 1 and self.char_at(call_args(y)[0]) is not None:
+            ca = self.char_at(call_args(y)[0])
+            try:
+                F_ = self.ctx.facts(self.f)
+                ck_ = F_.keys.key(call_args(y)[0])
+                nonzero = any(op_ == '!=' and set((a_, b_)) == set((ck_, 'n:0')) for (op_, a_, b_) in F_.cond_facts(y, truth))
+            except Exception:
+                nonzero = False
+            outs = self.effects(call_args(y)[0], alt)
+            res = []
+            for s in outs:
+                if nonzero:
+                    r = self.learn(s, ca, NN)
+                    if r is not None:
+                        res.append(r)
+                else:
+                    res.append(s)
+            return res
         # plain character used as a condition:  if (*p)
         ca = self.char_at(x)
         if ca is not None:
@@ -919,9 +940,52 @@ class CursorAnalysis(object):
         return s
 
     # -- fixpoint
+    def _entry_alt(self):
+        """What is known on entry: for a file-local helper, a cursor parameter whose argument is, at every call site, a plain
+        cursor of the caller whose first character the caller has established not to be the terminator (must-facts there)
+        starts with that one character known."""
+        a0 = Alt()
+        try:
+            from ..lock import is_internal
+            from ..callgraph import fkey as _fk
+            if not is_internal(self.f):
+                return a0
+            G = self.ctx.G
+            me = _fk(self.f)
+            sites = [(self.ctx.G.defs[ck][1], site) for ck, es in G.edges.items() for (kind, t, site) in es
+                     if kind == 'direct' and t == me and ck in G.defs and ck != me]
+            if not sites:
+                return a0
+            for pi, p_ in enumerate(params_of(self.f)):
+                if p_['id'] not in self.cursors:
+                    continue
+                ok = True
+                for (cf, site) in sites:
+                    args = call_args(site)
+                    if pi >= len(args):
+                        ok = False
+                        break
+                    Fc = self.ctx.facts(cf)
+                    ak = Fc.keys.key(args[pi])
+                    fs = Fc.facts_at_ast(site) or frozenset()
+                    known = any((op == '!=' and set((x1, x2)) == set(('*(%s)' % ak, 'n:0'))) or
+                                (op == '==' and '*(%s)' % ak in (x1, x2) and re.match(r'^n:-?[1-9]\d*$', x2 if x1 == '*(%s)' % ak else x1))
+                                for (op, x1, x2) in fs)
+                    if not known:
+                        ok = False
+                        break
+                if ok:
+                    r = self.learn(a0, (p_['id'], 0), NN)
+                    if r is not None:
+                        a0 = r
+        except Exception:
+            return Alt()
+        return a0
+
     def run(self):
         g = self.cfg
-        ins = {g.entry.id: {Alt().key(): Alt()}}
+        e0 = self._entry_alt()
+        ins = {g.entry.id: {e0.key(): e0}}
         order = {n.id: i for i, n in enumerate(g.rpo())}
         byid = {n.id: n for n in g.live}
         import heapq
